@@ -15,6 +15,11 @@
     must repeat); it is then a VIOLATION whose replay is that one-row .cpp file.
  4. C->S: static_if is a run-time function: a driver calls the real static_if for every (condition, form,
     callable kinds) of the spec and TLC validates the recorded table against TypeList.tla (TypeListCheck).
+ Round 3: thorough lists to length 5; 15 two-deep compositions as a law table (the composition on the real templates
+ equals the composition of the models; CompLaws relate them to the single operations); second routes in every row;
+ a second pass of the equality-sensitive rows over a confusable alphabet; -std=c++17 passes; static_if with const-reference
+ and non-copyable callables; advisory tables for every remaining public trait (PromoteExtra.tla), reported as one
+ ADVISORY line per family.
 """
 import json, os, random, re, subprocess, threading
 from concurrent.futures import ThreadPoolExecutor
@@ -90,10 +95,142 @@ def mask(p):
     return sum(1 << "ABC".index(x) for x in p)
 
 
+def fapp(f, x):
+    """the C++ spelling of the unary metafunction f applied to the type spelled x"""
+    return "%s<%s>" % (TL_FUN[f], x)
+
+
+def eq_pred(v):
+    return "eq_%s" % v["n"]
+
+
 def render_tl(row):
-    """-> (condition, subject, kind) ; subject = the xtl expression observed (for the explanation)."""
+    """-> (condition, subject, kind) ; subject = the xtl expression observed (for the explanation).
+    The condition is the TLC-computed result AND the second routes: the same observable reached through other
+    metafunctions of the statement on the real templates (laws that TLC has checked on the spec: ListLaws, MergeLaws)."""
+    cond, subject, kind = render_tl_main(row)
+    extra = second_routes(row)
+    if extra:
+        cond = cond + " && " + " && ".join(extra)
+    return cond, subject, kind
+
+
+def second_routes(row):
+    op, a = row["op"], row["a"]
+    if "l" not in a:
+        return []
+    L = tl_ty(a["l"])
+    tm = TL_TMPL.get(a["l"]["n"])
+    n = len(a["l"]["a"])
+    sz = "mpl::size<%s>::value" % L
+    if op == "Size":
+        return ["mpl::size<%s>::type::value == %s" % (L, sz), "len_impl<%s>::value == %s" % (L, sz),
+                "mpl::size<mpl::cast_t<%s, std::tuple>>::value == %s" % (L, sz)]
+    if op == "Empty":
+        return ["mpl::empty<%s>::value == (%s == 0u)" % (L, sz)]
+    if op == "Front":
+        return ["mpl::index_of<%s, mpl::front_t<%s>>::value == 0u" % (L, L), "same<mpl::front_t<%s>, nth<0, %s>>::value" % (L, L),
+                "same<mpl::push_front_t<mpl::pop_front_t<%s>, mpl::front_t<%s>>, %s>::value" % (L, L, L)]
+    if op == "Back":
+        return ["mpl::contains<%s, mpl::back_t<%s>>::value" % (L, L), "same<mpl::back_t<%s>, nth<%s - 1, %s>>::value" % (L, sz, L)]
+    if op == "PopFront":
+        return ["mpl::size<mpl::pop_front_t<%s>>::value + 1 == %s" % (L, sz)]
+    if op in ("PushFront", "PushBack"):
+        f = "push_front" if op == "PushFront" else "push_back"
+        return ["mpl::size<mpl::%s_t<%s>>::value == %s + %du" % (f, ", ".join([L] + [tl_ty(x) for x in a["ts"]]), sz, len(a["ts"]))]
+    if op == "Count":
+        return ["mpl::count<%s, %s>::value == mpl::count_if<%s, %s>::value" % (L, tl_ty(a["v"]), L, eq_pred(a["v"]))]
+    if op == "CountIf":
+        m = mask(a["p"])
+        return ["mpl::count_if<%s, p%d>::value + mpl::count_if<%s, p%d>::value == mpl::count_if<%s, p7>::value" % (L, m, L, 7 - m, L)]
+    if op == "Contains":
+        v = tl_ty(a["v"])
+        return ["mpl::contains<%s, %s>::value == (mpl::index_of<%s, %s>::value != SIZE_MAX)" % (L, v, L, v),
+                "mpl::contains<%s, %s>::value == (mpl::count<%s, %s>::value > 0u)" % (L, v, L, v)]
+    if op == "IndexOf":
+        v = tl_ty(a["v"])
+        return ["(mpl::index_of<%s, %s>::value == SIZE_MAX ? %s : mpl::index_of<%s, %s>::value) == mpl::find_if<%s, %s>::value"
+                % (L, v, sz, L, v, eq_pred(a["v"]), L)]
+    if op == "FindIf":
+        m = mask(a["p"])
+        return ["(mpl::find_if<p%d, %s>::value == %s) == (mpl::count_if<%s, p%d>::value == 0u)" % (m, L, sz, L, m)]
+    if op == "Transform":
+        return ["mpl::size<mpl::transform_t<%s, %s>>::value == %s" % (TL_FUN[a["f"]], L, sz)]
+    if op == "Cast":
+        return ["same<mpl::cast_t<mpl::cast_t<%s, %s>, %s>, %s>::value" % (L, TL_TMPL[a["b"]], tm, L)]
+    if op == "Split":
+        sp = "mpl::split<%du, %s>" % (a["n"], L)
+        return ["same<mpl::cast_t<concat<typename %s::first_type, typename %s::second_type>, %s>, %s>::value" % (sp, sp, tm, L),
+                "mpl::size<typename %s::first_type>::value == %du" % (sp, a["n"])]
+    if op == "Unique":
+        u = "mpl::unique_t<%s>" % L
+        return ["same<mpl::unique_t<%s>, %s>::value" % (u, u), "same<mpl::merge_set_t<%s<>, %s>, %s>::value" % (tm, L, u)]
+    if op == "MergeSet":
+        L2 = a["l2"]
+        return ["same<mpl::unique_t<mpl::merge_set_t<%s, %s>>, mpl::unique_t<mpl::push_back_t<%s>>>::value"
+                % (L, tl_ty(L2), ", ".join([L] + [tl_ty(x) for x in L2["a"]]))]
+    return []
+
+
+VALUE_SUBJECTS = ("size<%s>", "count<%s, A>", "count_if<%s, p1>", "index_of<%s, A>", "index_of<%s, D>", "find_if<p1, %s>")
+
+
+def render_tl_main(row):
     op, a, res = row["op"], row["a"], row["res"]
     L = tl_ty(a["l"]) if "l" in a else None
+    # ---- round 3: compositions two deep
+    if op in ("UniqueMerge", "MergeUnique"):
+        s = ("mpl::unique_t<mpl::merge_set_t<%s, %s>>" if op == "UniqueMerge" else "mpl::merge_set_t<mpl::unique_t<%s>, mpl::unique_t<%s>>") % (L, tl_ty(a["l2"]))
+        return any_same(s, res), s, "type"
+    if op == "SizeMerge":
+        s = "mpl::size<mpl::merge_set_t<%s, %s>>::value" % (L, tl_ty(a["l2"]))
+        return "(" + " || ".join("%s == %du" % (s, n) for n in res) + ")", s, "value"
+    if op in ("IndexOfTransform", "CountTransform"):
+        s = "mpl::%s<mpl::transform_t<%s, %s>, %s>::value" % ("index_of" if op == "IndexOfTransform" else "count", TL_FUN[a["f"]], L,
+                                                                fapp(a["f"], tl_ty(a["v"])))
+        return "%s == %s" % (s, "SIZE_MAX" if res[0] == -1 else "%du" % res[0]), s, "value"
+    if op == "TransformTransform":
+        s = "mpl::transform_t<%s, mpl::transform_t<%s, %s>>" % (TL_FUN[a["f"]], TL_FUN[a["g"]], L)
+        return any_same(s, res), s, "type"
+    if op == "UniqueTransform":
+        s = "mpl::unique_t<mpl::transform_t<%s, %s>>" % (TL_FUN[a["f"]], L)
+        return any_same(s, res), s, "type"
+    if op == "CastTransform":
+        s = "mpl::cast_t<mpl::transform_t<%s, %s>, %s>" % (TL_FUN[a["f"]], L, TL_TMPL[a["b"]])
+        return any_same(s, res), s, "type"
+    if op == "FindIfUnique":
+        s = "mpl::find_if<p%d, mpl::unique_t<%s>>::value" % (mask(a["p"]), L)
+        return "%s == %du" % (s, res[0]), s, "value"
+    if op == "IndexOfUnique":
+        s = "mpl::index_of<mpl::unique_t<%s>, %s>::value" % (L, tl_ty(a["v"]))
+        return "%s == %s" % (s, "SIZE_MAX" if res[0] == -1 else "%du" % res[0]), s, "value"
+    if op == "ContainsPopFront":
+        s = "mpl::contains<mpl::pop_front_t<%s>, %s>::value" % (L, tl_ty(a["v"]))
+        return "%s == %s" % (s, b2s(res[0])), s, "value"
+    if op == "UniquePush":
+        s = "mpl::unique_t<mpl::push_back_t<%s>>" % ", ".join([L] + [tl_ty(x) for x in a["ts"]])
+        return any_same(s, res), s, "type"
+    if op == "FrontPopFront":
+        s = "mpl::front_t<mpl::pop_front_t<%s>>" % L
+        return any_same(s, res), s, "type"
+    if op == "BackPushBack":
+        s = "mpl::back_t<mpl::push_back_t<%s>>" % ", ".join([L] + [tl_ty(x) for x in a["ts"]])
+        return any_same(s, res), s, "type"
+    if op == "PopPush":
+        s = "mpl::pop_front_t<mpl::push_front_t<%s, %s>>" % (L, tl_ty(a["ts"][0]))
+        return any_same(s, res), s, "type"
+    # ---- round 3, advisory: void_t, the types of the value members, plus over mixed integral constants
+    if op == "VoidT":
+        s = "xtl::void_t<%s>" % ", ".join(tl_ty(x) for x in a["l"]["a"])
+        return "same<%s, void>::value && same<typename xtl::make_void<%s>::type, void>::value" % (s, L), s, "type"
+    if op == "ValueKind":
+        c = ["same<decltype(mpl::%s::value), const std::size_t>::value" % (v % L) for v in VALUE_SUBJECTS]
+        c += ["same<decltype(mpl::%s::value), const bool>::value" % (v % L) for v in ("empty<%s>", "contains<%s, A>")]
+        c += ["same<typename mpl::size<%s>::value_type, std::size_t>::value" % L]
+        return " && ".join(c), "mpl::index_of<%s, D>::value" % L, "value"
+    if op == "PlusMixed":
+        s = "mpl::plus<%s>::value" % ", ".join(["mpl::bool_<%s>" % b2s(b) for b in a["bs"]] + ["mpl::size_t_<%d>" % n for n in a["ns"]])
+        return "%s == %du" % (s, res[0]), s, "value"
     if op == "Size":
         s = "mpl::size<%s>::value" % L
         return "%s == %du" % (s, res[0]), s, "value"
@@ -167,12 +304,27 @@ CPP = {"bool": "bool", "char": "char", "schar": "signed char", "uchar": "unsigne
        "uint": "unsigned int", "long": "long", "ulong": "unsigned long", "llong": "long long", "ullong": "unsigned long long",
        "float": "float", "double": "double", "ldouble": "long double", "uint8_t": "std::uint8_t"}
 EXTRA_OPS = {"BigPromote", "RealPromote", "BoolPromote", "Concepts", "AllScalar",      # documented companions: advisory only
-             "CommonOptional", "ChronoPromote"}                                       # (PromoteExtra.tla: not named by the statement)
+             "CommonOptional", "ChronoPromote",
+             "VoidT", "ValueKind", "PlusMixed",
+             "Classify", "AllScalarX", "PromoteHalf", "PromoteXc", "PromoteEmpty", "BigPromoteCv", "RealPromoteCv", "OptTraits",
+             "ComplexTraits", "LogicInt", "NegationInt"}                                       # (PromoteExtra.tla: not named by the statement)
 ALL_OPS = ["PromoteCv", "Size", "Empty", "Front", "Back", "PushFront", "PushBack", "PopFront", "Count", "CountIf", "Contains", "IndexOf",
            "FindIf", "Transform", "Cast", "Split", "Unique", "MergeSet", "Plus", "If", "EvalIf", "Switch", "StaticIf",
+           "UniqueMerge", "SizeMerge", "MergeUnique", "IndexOfTransform", "CountTransform", "TransformTransform", "UniqueTransform",
+           "FindIfUnique", "IndexOfUnique", "ContainsPopFront", "CastTransform", "UniquePush", "FrontPopFront", "BackPushBack", "PopPush",
+           "VoidT", "ValueKind", "PlusMixed",
            "Add", "Add3", "Promote", "BigPromote", "RealPromote", "BoolPromote", "Conjunction", "Disjunction", "Negation",
-           "Concepts", "AllScalar", "ApplyCv", "Constify", "CommonOptional", "ChronoPromote"]
+           "Concepts", "AllScalar", "ApplyCv", "Constify", "CommonOptional", "ChronoPromote",
+           "Classify", "AllScalarX", "PromoteHalf", "PromoteXc", "PromoteEmpty", "BigPromoteCv", "RealPromoteCv", "OptTraits",
+           "ComplexTraits", "LogicInt", "NegationInt"]
 ORACLE_OPS = {"Add", "Add3"}                                              # spec vs compiler, no xtl
+# rows whose answer depends on telling two types apart (re-run over a confusable alphabet)
+EQ_OPS = {"Count", "Contains", "IndexOf", "Unique", "MergeSet", "UniqueMerge", "MergeUnique", "SizeMerge", "IndexOfUnique", "ContainsPopFront",
+          "UniquePush", "CountTransform", "IndexOfTransform", "UniqueTransform", "CountIf", "FindIf", "FindIfUnique", "Front", "Back"}
+CONFUSABLE = [("int", "const int", "volatile int", "const volatile int"), ("int", "int&", "const int&", "int&&"),
+              ("int[3]", "int[]", "int*", "int[4]"), ("int()", "int(*)()", "int(&)()", "int(*const)()"),
+              ("char*", "const char*", "char* const", "void*"), ("double", "const double&", "double&&", "const double"),
+              ("tl::s_empty", "const tl::s_empty", "tl::s_empty&", "tl::s_empty*")]
 
 
 def pr_ty(t):
@@ -218,8 +370,70 @@ def opt_ty(t):
     return CPP[n]
 
 
+EX_KIND = {"cint": "const int", "ptr": "k_class*", "enum": "k_enum", "class": "k_class", "nullptr": "std::nullptr_t", "lref": "int&",
+           "void": "void", "half": "xtl::half_float", "chalf": "const xtl::half_float", "xcomplex": "xtl::xcomplex<double, double>",
+           "stdcomplex": "std::complex<double>", "xoptional": "xtl::xoptional<int>", "xoptionalc": "xtl::xoptional<double, char>",
+           "xmasked": "xtl::xmasked_value<int>", "stdcomplexcref": "const std::complex<double>&",
+           "xcomplexcref": "const xtl::xcomplex<double, double>&"}
+CLS_TRAIT = {"scalar": "is_scalar", "arithmetic": "is_arithmetic", "fundamental": "is_fundamental", "signed": "is_signed",
+             "floating": "is_floating_point", "integral": "is_integral"}
+
+
+def ex_kind(k):
+    return EX_KIND.get(k) or CPP[k]
+
+
+def ex_ty(t):
+    n = t["n"]
+    if n == "complex":
+        return "std::complex<%s>" % ex_ty(t["a"][0])
+    if n == "xcomplex":
+        return "xtl::xcomplex<%s, %s>" % (ex_ty(t["a"][0]), ex_ty(t["a"][0]))
+    if n == "const":
+        return "const %s" % ex_ty(t["a"][0])
+    if n == "constref":
+        return "const %s&" % ex_ty(t["a"][0])
+    return ex_kind(n)
+
+
 def render_ex(row):
     op, a, res = row["op"], row["a"], row["res"]
+    if op == "Classify":
+        ty = ex_kind(a["t"])
+        c = ["xtl::%s<%s>::value == %s" % (CLS_TRAIT[k], ty, b2s(v == "T")) for k, v in sorted(res[0].items()) if v != "any"]
+        subj = ("xtl::is_scalar<%s>::value * 32 + xtl::is_arithmetic<%s>::value * 16 + xtl::is_fundamental<%s>::value * 8 + "
+                "xtl::is_signed<%s>::value * 4 + xtl::is_floating_point<%s>::value * 2 + xtl::is_integral<%s>::value") % ((ty,) * 6)
+        return " && ".join(c), subj, "value"
+    if op == "AllScalarX":
+        s = "xtl::all_scalar<%s>::value" % ", ".join(ex_kind(k) for k in a["kinds"])
+        return "%s == %s" % (s, b2s(res[0])), s, "value"
+    if op in ("PromoteHalf", "PromoteXc"):
+        s = "xtl::promote_type_t<%s>" % ", ".join(ex_ty(x) for x in a["pack"])
+        return pr_any(s, res, ex_ty), s, "type"
+    if op == "PromoteEmpty":
+        return "same<xtl::promote_type_t<>, void>::value", "xtl::promote_type_t<>", "type"
+    if op in ("BigPromoteCv", "RealPromoteCv"):
+        s = "xtl::%s_t<%s>" % ("big_promote_type" if op == "BigPromoteCv" else "real_promote_type", ex_ty(a["t"]))
+        return pr_any(s, res, ex_ty), s, "type"
+    if op == "OptTraits":
+        k, r = [ex_kind(x) for x in a["kinds"]], res[0]
+        c = ["xtl::is_xoptional<%s>::value == %s" % (k[0], b2s(r["is_xoptional"])), "xtl::is_xmasked_value<%s>::value == %s" % (k[0], b2s(r["is_xmasked"])),
+             "xtl::is_not_xoptional_nor_xmasked_value<%s>::value == %s" % (k[0], b2s(r["neither"])),
+             "xtl::at_least_one_xoptional<%s>::value == %s" % (", ".join(k), b2s(r["at_least_one"]))]
+        return " && ".join(c), "xtl::at_least_one_xoptional<%s>::value" % ", ".join(k), "value"
+    if op == "ComplexTraits":
+        k, r = ex_kind(a["k"]), res[0]
+        c = ["xtl::%s<%s>::value == %s" % (t, k, b2s(r[t])) for t in ("is_complex", "is_xcomplex", "is_gen_complex")]
+        return " && ".join(c), "xtl::is_gen_complex<%s>::value" % k, "value"
+    if op == "LogicInt":
+        c = []
+        for name, key in (("conjunction", "conj"), ("disjunction", "disj")):
+            inst = "xtl::%s<%s>" % (name, ", ".join(a["args"]))
+            c += ["base_of<%s, %s>::value" % (a["args"][res[0][key]["sel"] - 1], inst), "bool(%s::value) == %s" % (inst, b2s(res[0][key]["value"]))]
+        return " && ".join(c), "xtl::conjunction<%s>::value" % ", ".join(a["args"]), "value"
+    if op == "NegationInt":
+        s = "xtl::negation<%s>::value" % a["arg"]
+        return "%s == %s" % (s, b2s(res[0])), s, "value"
     if op == "CommonOptional":
         s = "xtl::common_optional_t<%s>" % ", ".join(opt_ty(x) for x in a["args"])
         return pr_any(s, res, opt_ty), s, "type"
@@ -257,6 +471,8 @@ def render_pr(row):
                              ("VT_DISALLOW", "check_disallow", "disallow"), ("VT_DISALLOW_ONE", "check_disallow_one", "disallow_one")):
             c.append("%s(%s) == %s" % (vt, args, b2s(r[key])))
             c.append("passes<xtl::%s, pack<%s>>::value == %s" % (chk, args, b2s(r[key])))
+            c.append("fn_%s<%s>(0) == %s" % (key, args, b2s(r[key])))
+        c.append("passes<xtl::check_concept, pack<%s>>::value == %s" % (args, b2s(r["requires"])))
         return " && ".join(c), "passes<xtl::check_requires, pack<%s>>::value" % args, "value"
     if op == "AllScalar":
         km = {"int": "int_", "double": "double_", "bool": "bool_", "enum": "enum_", "nullptr": "nullptr_", "class": "class_", "void": "void_"}
@@ -330,15 +546,16 @@ def tu_text(rows, atoms, show=False):
     return "".join(out), lines
 
 
-def cxx_cmd(cxx, path, extra=()):
-    return [cxx, "-std=c++14", "-fsyntax-only", "-ftemplate-depth=2000", "-I", core.INCLUDE, "-I", core.HARNESS,
+def cxx_cmd(cxx, path, extra=(), std="c++14"):
+    return [cxx, "-std=" + std, "-fsyntax-only", "-ftemplate-depth=2000", "-I", core.INCLUDE, "-I", core.HARNESS,
             "-I", os.path.join(core.HARNESS, "common")] + list(extra) + [path]
 
 
 class Compiler:
-    def __init__(self, ctx, cxx, atoms):
-        self.ctx, self.cxx, self.atoms = ctx, cxx, atoms
-        self.dir = ctx.sub("tu-" + os.path.basename(cxx))
+    def __init__(self, ctx, cxx, atoms, std="c++14", tag=""):
+        self.ctx, self.cxx, self.atoms, self.std = ctx, cxx, atoms, std
+        self.name = os.path.basename(cxx) + ("" if std == "c++14" else "-" + std) + tag
+        self.dir = ctx.sub("tu-" + self.name)
         self.n = 0
         self.compiles = 0
         self.lock = threading.Lock()
@@ -351,7 +568,7 @@ class Compiler:
         text, lines = tu_text(rows, self.atoms)
         with open(path, "w") as f:
             f.write(text)
-        rc, out = core.sh(cxx_cmd(self.cxx, path), timeout=1500)
+        rc, out = core.sh(cxx_cmd(self.cxx, path, std=self.std), timeout=1500)
         if rc == 124:
             raise MachineryError("compiler timed out on %s" % path)
         return rc == 0, out, lines, path
@@ -409,15 +626,17 @@ class Compiler:
         return bad
 
 
-def explain(ctx, cxx, row, atoms, path):
+def explain(ctx, cxx, row, atoms, path, std="c++14"):
     """Write the one-row replay file; obtain the observed type/value by compiling it with -DVERIF_SHOW."""
     text, _ = tu_text([row], atoms, show=True)
     with open(path, "w") as f:
-        f.write("// C18 replay: compile with  g++ -std=c++14 -fsyntax-only -I<xtl include> -I/verif/harness %s\n" % os.path.basename(path))
+        f.write("// C18 replay: compile with  %s -std=%s -fsyntax-only -I<xtl include> -I/verif/harness %s\n" % (os.path.basename(cxx), std, os.path.basename(path)))
+        if row.table == "tl":
+            f.write("// alphabet: %s\n" % json.dumps(atoms, sort_keys=True))
         f.write("// (-DVERIF_SHOW builds a program that prints what xtl computes instead of asserting)\n")
         f.write(text)
     exe = os.path.join(ctx.work, "show.bin")
-    cmd = [cxx, "-std=c++14", "-DVERIF_SHOW", "-I", core.INCLUDE, "-I", core.HARNESS, "-I", os.path.join(core.HARNESS, "common"), path, "-o", exe]
+    cmd = [cxx, "-std=" + std, "-DVERIF_SHOW", "-I", core.INCLUDE, "-I", core.HARNESS, "-I", os.path.join(core.HARNESS, "common"), path, "-o", exe]
     rc, out = core.sh(cmd, timeout=300)
     if rc != 0:
         errs = [l for l in out.splitlines() if "error" in l]
@@ -458,7 +677,7 @@ def prelude_ok(ctx, comp, table):
     with open(rp, "w") as f:
         f.write("// C18 replay: the header alone, %s -std=c++14 -fsyntax-only -I<xtl include>\n#include \"%s\"\nint main() {}\n"
                 % (os.path.basename(comp.cxx), HEADER_OF[table]))
-    rc, o = core.sh(cxx_cmd(comp.cxx, rp), timeout=600)
+    rc, o = core.sh(cxx_cmd(comp.cxx, rp, std=comp.std), timeout=600)
     if rc == 0:
         os.remove(rp)
         raise MachineryError("the C18 prelude does not compile against %s (%s) although %s alone does:\n%s"
@@ -479,15 +698,25 @@ def build_static_if(ctx):
     tag = rc == 0
     if not tag:
         ctx.notes["static_if_tag_form"] = "the overloads static_if(std::true_type / std::false_type, tf, ff) are not callable; only static_if<cond>(tf, ff) is driven"
-    d = tables.build_driver(ctx, "C18", src, drv, os.path.join(HC18, "static_if_probe.cpp"), flags=["-DHAVE_TAG_FORM"] if tag else [])
-    return d, tag
+    rc, o = core.try_build(ctx, os.path.join(HC18, "static_if_probe.cpp"), drv + ".ncprobe", flags=["-DNOCOPY_FORM"] + (["-DTAG_FORM"] if tag else []))
+    nocopy = rc == 0
+    if not nocopy:
+        ctx.notes["static_if_nocopy"] = False
+        note = ("ADVISORY static_if no longer accepts a callable that can be neither copied nor moved (it took its callables by "
+                "const reference); the non-copyable branch shape is not driven")
+        if note not in ctx.drift:
+            ctx.drift.append(note)
+    d = tables.build_driver(ctx, "C18", src, drv, os.path.join(HC18, "static_if_probe.cpp"),
+                            flags=(["-DHAVE_TAG_FORM"] if tag else []) + (["-DHAVE_NOCOPY"] if nocopy else []))
+    return d, tag, nocopy
 
 
 def static_if_stage(ctx, tl_rows):
-    drv, tag = build_static_if(ctx)
+    drv, tag, nocopy = build_static_if(ctx)
     if drv is None:
         return 0
-    calls = [{"op": "StaticIf", "a": r["a"]} for r in tl_rows if r["op"] == "StaticIf" and (tag or r["a"]["form"] != "tag")]
+    calls = [{"op": "StaticIf", "a": r["a"]} for r in tl_rows if r["op"] == "StaticIf" and (tag or r["a"]["form"] != "tag")
+             and (nocopy or "nocopy" not in (r["a"]["t"]["rt"], r["a"]["f"]["rt"]))]
     # seeded values: what the callables return is an input, the spec is evaluated on the logged arguments
     rnd = random.Random(ctx.seed * 7919 + 18)
     for c in calls:
@@ -529,7 +758,7 @@ def replay(ctx, path):
         print("  " + "\n  ".join([l for l in out.splitlines() if "error" in l][:5]))
         return 1
     lines = [l for l in core.read_ndjson(path) if "_meta" not in l]
-    drv, tag = build_static_if(ctx)
+    drv, tag, nocopy = build_static_if(ctx)
     if drv is None:
         print("VIOLATION property=C18 replay=%s\n  the static_if driver does not build against this tree" % path)
         return 1
@@ -609,7 +838,8 @@ def run(ctx):
 
     # ---- 1. TLC: TypeList table (+ theorems)
     r = core.tlc_model_check(ctx, "TypeListMC", "TypeList_mc.cfg" if q else "TypeList_mc_thorough.cfg",
-                             "type-list calls enumerated; theorems of the spec", coverage=not q, heap="6g")
+                             "type-list calls enumerated; theorems of the spec", coverage=not q, heap="6g",
+                             env={"JAVA_TOOL_OPTIONS": "-Xss64m"})     # the nested \E over ~850 lists overflows the default worker stack
     check_assumptions(r, "TypeList.tla")
     tl_spec = emitted(r["out"])
     if not q:
@@ -657,26 +887,45 @@ def run(ctx):
         ctx.log("vacuous actions (never enumerated): %s" % ctx.notes["vacuous_actions"])
     ctx.log("%d type-list calls and %d trait calls enumerated by TLC" % (len(tl_spec), len(pr_spec)))
 
-    # second compiler: every row in the thorough tier, a seeded quarter of the rows in the quick tier
-    compilers = [(core.CXX, 1), ("clang++", 4 if q else 1)]
+    # passes: (compiler, language standard, 1/stride of the rows, alphabet, row filter)
+    #  - g++ -std=c++14 on every row; clang++ -std=c++14 on every row (thorough) / a seeded quarter (quick);
+    #  - round 3: the C++17 reading of the same headers (clang++ and g++; template template matching, noexcept in the type
+    #    system, fold expressions in any #if __cplusplus branch): a quarter (clang++) and an eighth (g++) of the rows in thorough,
+    #    an eighth (g++) in quick;
+    #  - round 3: the equality-sensitive type-list rows once more over a CONFUSABLE alphabet: four pairwise distinct types that
+    #    coincide after decay / cv-stripping / pointer conversion (an implementation comparing anything coarser than the types
+    #    themselves cannot tell them apart).
+    fam = list(rnd.choice(CONFUSABLE))
+    rnd.shuffle(fam)
+    atoms2 = dict(zip("ABCD", fam))
+    ctx.notes["confusable_atoms"] = atoms2
+    eq_filter = lambda x: x.table == "tl" and x.spec["op"] in EQ_OPS
+    passes = [(core.CXX, "c++14", 1, atoms, None, ""), ("clang++", "c++14", 4 if q else 1, atoms, None, ""),
+              (core.CXX, "c++14", 2, atoms2, eq_filter, "-confusable")]
+    passes += [(core.CXX, "c++17", 8, atoms, None, "")] if q else [("clang++", "c++17", 4, atoms, None, ""), (core.CXX, "c++17", 8, atoms, None, "")]
     all_rows = rows
     nrows_checked = 0
-    for cxx, stride in compilers:
+    advisory_seen = set()
+    for cxx, std, stride, atoms_p, flt, tag in passes:
+        base_rows = [x for x in all_rows if flt(x)] if flt else all_rows
         if stride > 1:
-            rows = list(all_rows)
+            rows = list(base_rows)
             rnd.shuffle(rows)
             rows = rows[::stride]
             # every operation keeps at least a few rows
             have = {x.spec["op"] for x in rows}
-            rows += [x for x in all_rows if x.spec["op"] not in have]
+            rows += [x for x in base_rows if x.spec["op"] not in have]
         else:
-            rows = all_rows
-        comp = Compiler(ctx, cxx, atoms)
-        usable = {t: prelude_ok(ctx, comp, t) for t in ("tl", "pr")}
+            rows = base_rows
+        comp = Compiler(ctx, cxx, atoms_p, std, tag)
+        cxx_name = comp.name
+        usable = {t: prelude_ok(ctx, comp, t) for t in (("tl",) if flt else ("tl", "pr"))}
+        if flt:
+            usable["pr"] = False
         # the advisory table: a prelude that does not compile (common_optional gone, ...) only switches it off
         rx = Row(0, "ex", {"op": "prelude"}, "true", "int", "type")
-        usable["ex"] = comp.compile([rx], "prelude-ex.cpp")[0]
-        if not usable["ex"]:
+        usable["ex"] = False if flt else comp.compile([rx], "prelude-ex.cpp")[0]
+        if not usable["ex"] and not flt:
             note = "the advisory table of PromoteExtra.tla (common_optional, time_point promotion) cannot be compiled against this tree (%s)" % cxx
             if note not in ctx.drift:
                 ctx.drift.append(note)
@@ -688,7 +937,7 @@ def run(ctx):
                 x, out = bad[0]
                 raise MachineryError("Promote.tla disagrees with %s on %s: spec says %s; this is a spec error, not a violation\n%s"
                                      % (cxx, x.subject, expected_text(x), out[-1500:]))
-            ctx.log("%s: oracle cross-check, %d Add/Add3 rows agree with decltype(a + b)" % (cxx, len(orows)))
+            ctx.log("%s: oracle cross-check, %d Add/Add3 rows agree with decltype(a + b)" % (cxx_name, len(orows)))
         # ---- 3b. xtl against the oracle
         for table, label, ntu in (("tl", "typelist", core.NCPU if q else 3 * core.NCPU), ("pr", "traits", max(2, core.NCPU // 2) if q else core.NCPU),
                                   ("ex", "companions", 2)):
@@ -704,21 +953,31 @@ def run(ctx):
                 # (a row that fails with a hard error instead of a failed static_assert - the metafunction is gone, renamed or
                 #  ill-formed for these arguments - is reported like any other: every row compiles against a tree where the
                 #  property holds, whatever its private names are, because the rows use the public names of the statement only)
+                if op in EXTRA_OPS:
+                    # advisory: one line per operation (the first compiler that sees it), with the number of rows and the first one
+                    if op in advisory_seen:
+                        continue
+                    advisory_seen.add(op)
+                    x, out = lst[0]
+                    rp = os.path.join(ctx.work, "advisory_%s.cpp" % op)
+                    got = explain(ctx, cxx, x, atoms_p, rp, std)
+                    ctx.drift.append("ADVISORY %s (not named by the statement): %d row(s) differ from %s, e.g. %s is %s ; expected: %s  [%s]"
+                                     % (op, len(lst), {"pr": "Promote.tla", "tl": "TypeList.tla", "ex": "PromoteExtra.tla"}[table], x.subject, got,
+                                        x.cond[:500], cxx_name))
+                    ctx.notes.setdefault("advisory_rows", {})[op] = [json.dumps(y.spec, sort_keys=True)[:300] for y, _ in lst[:20]]
+                    continue
                 for x, out in lst[:4 if stride > 1 else 8]:
                     os.makedirs(ctx.replays, exist_ok=True)
-                    rp = os.path.join(ctx.replays, "row_%s_%d_s%d.cpp" % (op, x.rid, ctx.seed))
-                    got = explain(ctx, cxx, x, atoms, rp)
+                    rp = os.path.join(ctx.replays, "row_%s_%d_s%d%s.cpp" % (op, x.rid, ctx.seed, tag))
+                    got = explain(ctx, cxx, x, atoms_p, rp, std)
                     text = "%s: %s is %s ; %s requires: %s  [%s; spec row %s]" % (
-                        op, x.subject, got, {"pr": "Promote.tla", "tl": "TypeList.tla", "ex": "PromoteExtra.tla"}[table], x.cond[:700], cxx,
+                        op, x.subject, got, {"pr": "Promote.tla", "tl": "TypeList.tla", "ex": "PromoteExtra.tla"}[table], x.cond[:700],
+                        cxx_name + (" with A..D = " + json.dumps(atoms_p, sort_keys=True) if table == "tl" else ""),
                         json.dumps(x.spec, sort_keys=True)[:500])
-                    if op in EXTRA_OPS:
-                        ctx.drift.append("documented companion trait differs from its description: " + text)
-                        os.remove(rp)
-                    else:
-                        ctx.violation(text, replay_path=rp)
-            ctx.log("%s: %s table, %d rows asserted, %d rejected" % (cxx, label, len(irows), len(bad)))
-        ctx.notes["compiles_" + os.path.basename(cxx)] = comp.compiles
-        ctx.notes["rows_" + os.path.basename(cxx)] = len(rows)
+                    ctx.violation(text, replay_path=rp)
+            ctx.log("%s: %s table, %d rows asserted, %d rejected" % (cxx_name, label, len(irows), len(bad)))
+        ctx.notes["compiles_" + cxx_name] = comp.compiles
+        ctx.notes["rows_" + cxx_name] = len(rows)
     rows = all_rows
     for x in rows[:1] + [y for y in rows if y.spec["op"] == "Promote"][-1:] + [y for y in rows if y.spec["op"] == "MergeSet"][:1]:
         ctx.sample({"call": x.spec, "static_assert": x.cond[:400]})
@@ -733,15 +992,28 @@ def run(ctx):
         ctx, "exploration",
         rule="exhaustive inside the bounds: every type list of length <= %d over 3 distinct atom types (+ patterns of length 5..%d), "
              "2 list templates, x every metafunction of the property x every argument (values: 3 atoms + 1 absent type; predicates: all 8 "
-             "subsets; transform: 6 metafunctions (class templates of one, two (one defaulted) and any number of parameters, alias templates); split: every n <= size; merge_set: every second list of length <= %d; push: 0..2 types; "
-             "switch_: 1..%d cases); every pack of 1..%d types out of 18 builtin arithmetic types + complex<float|double|long double>; packs of "
-             "1..2 const/volatile-qualified arithmetic types; "
+             "subsets; transform: 6 metafunctions (class templates of one, two (one defaulted) and any number of parameters, alias templates); "
+             "split: every n <= size; merge_set: every second list of length <= %d with len1 + len2 <= %d; push: 0..2 types; switch_: 1..%d cases); "
+             "15 two-deep compositions (unique(merge_set), merge_set(unique, unique), size(merge_set), index_of/count/unique/cast after transform, "
+             "transform twice, find_if/index_of after unique, contains/front after pop_front, back/unique after push_back, pop after push) for "
+             "every first list of length <= %d and every second list of length <= 3; every row carries second routes (the same observable "
+             "through other metafunctions on the real templates); the equality-sensitive rows are asserted a second time over a confusable "
+             "alphabet (4 distinct types equal after decay); every pack of 1..%d types out of 18 builtin arithmetic types + "
+             "complex<float|double|long double>; packs of 1..2 const/volatile-qualified arithmetic types; "
              "conjunction/disjunction over every sequence of <= %d arguments out of 2 true, 2 false and 1 value-less class; apply_cv 12x4 and "
-             "constify 36 cv/pointer/reference forms. A case is one instantiation asserted (static_assert) against the TLC-computed table; "
+             "constify 36 cv/pointer/reference forms; static_if: 2 conditions x 2 forms x 5 x 5 callable shapes. Advisory tables: big/real/"
+             "bool_promote_type (also on const / const& forms), concept helpers (variables, check_*, macros), all_scalar, the six "
+             "classification traits on 22 type kinds incl. half_float, xcomplex, xoptional, promote_type with half_float / xcomplex / no "
+             "argument, is_xoptional / is_xmasked_value / at_least_one_xoptional, is_complex / is_xcomplex / is_gen_complex, logical traits "
+             "with int-valued members, void_t, the types of the value members, plus over mixed constants, common_optional, time_point. "
+             "A case is one instantiation asserted (static_assert) against the TLC-computed table; "
              "the atoms are mapped to C++ types chosen by VERIF_SEED from a pool of %d."
-             % (3 if q else 4, 40 if q else 64, 3 if q else 4, 2 if q else 3, 2 if q else 3, 3 if q else 4, len(ATOM_POOL)),
-        assumptions=["the C++ compiler (g++ on every row; clang++ on every row in the thorough tier and on a seeded quarter in the quick tier) "
-                     "evaluates static_assert correctly",
+             % (3 if q else 5, 40 if q else 64, 3 if q else 4, 6 if q else 7, 2 if q else 3, 3 if q else 4, 2 if q else 3, 3 if q else 4, len(ATOM_POOL)),
+        assumptions=["the C++ compiler (g++ -std=c++14 on every row; clang++ -std=c++14 on every row in the thorough tier and on a seeded quarter "
+                     "in the quick tier; -std=c++17: g++ on a seeded eighth, and clang++ on a seeded quarter in the thorough tier) evaluates "
+                     "static_assert correctly",
+                     "std::add_pointer_t is left out of the compositions whose answer depends on the equality of transformed elements (it is "
+                     "not injective on C++ types)",
                      "Promote.tla's Add table is cross-checked against decltype(a + b) of the same compiler for all pairs (triples in thorough)",
                      "std::complex only with floating-point value types (others are unspecified by the standard)",
                      "where the statement leaves the answer open (a single type after leading bools; merge_set with a repeated first "
